@@ -202,7 +202,7 @@ def run(ctx):
                             silent_discards = True     # shorter candidates / buffered neighbours are consumed without being yielded
                         got = []
                         sb = monitors.step_bound([LocalConcurrences.kbest_matches.__code__, LocalConcurrences.best_path.__code__],
-                                                 3000 * (r + 5) * (c + 5))
+                                                 150 * (r + 5) * (c + 5) + 5000)
                         sb.__enter__()
                         if how == "iter":
                             stream = lc.kbest_matches(k=k, minlen=minlen, buffer=buf, restart=restart)
